@@ -183,7 +183,7 @@ def check_C11(c):
     return c.finish()
 
 
-def run_crashy(c, test, env=None, timeout=3000, max_restarts=40):
+def run_crashy(c, test, env=None, timeout=3000, max_restarts=40, max_crashes=6):
     """Run a harness test whose cases may kill the process (panic in a package goroutine, runaway allocation).
     The test flushes a Reset event with its case number before each case; after a crash the driver records the
     case as crashed and restarts the test behind it.  Returns (path of the merged trace, list of crashed heads)."""
@@ -203,12 +203,23 @@ def run_crashy(c, test, env=None, timeout=3000, max_restarts=40):
                 break
             # crashed (or failed): find the last case
             heads = [ev for ev in evs if ev.get("ev") == "Reset" and "case" in ev]
-            if not heads or ("panic" not in output and "fatal error" not in output and "signal" not in output):
+            killed = rc is not None and rc < 0
+            if not heads or not (killed or "panic" in output or "fatal error" in output or "signal" in output):
                 raise Machinery("harness %s failed without a panic (rc=%s):\n%s" % (test, rc, output[-4000:]))
             last = heads[-1]
             m = re.search(r"(panic: .*|fatal error: .*)", output)
             stack = output[output.find(m.group(1)):][:3000] if m else output[-3000:]
-            crashed.append({"head": last, "panic": (m.group(1) if m else "?")[:300], "stack": stack})
+            what = (m.group(1) if m else ("killed by signal %d (the kernel's out-of-memory killer sends 9)" % -rc if killed else "?"))[:300]
+            crashed.append({"head": last, "panic": what, "stack": stack})
+            if len(crashed) >= max_crashes:
+                # the rest of the sweep would only repeat the finding slowly (an out-of-memory death takes a minute each)
+                c.cov["harness"]["sweep_aborted_after_crashes"] = len(crashed)
+                for ev in evs:
+                    if ev.get("t") == last.get("t"):
+                        break
+                    ev["t"] = ev.get("t", 0) + attempt * 1000000
+                    out.write(json.dumps(ev) + "\n")
+                break
             # keep the complete traces before the crashed case
             for ev in evs:
                 if ev.get("t") == last.get("t"):
@@ -608,4 +619,37 @@ def check_C06(c):
         c.violation(key, "%s (%s)" % (msg, detail[:300]), {"module": "TraceWire", "case": {k: v for k, v in e.items() if k not in ("b1", "b2")}, "tlc": msg})
     c.assumptions += ["equality is established on the enumerated boundary domains and seeded samples, not for all values (layouts are parametric in the values)",
                       "MKDIR with non-empty attributes and ATTRS replies are only constructible in the filexfer codec (the wire codec builds ATTRS from os.FileInfo)"]
+    return c.finish()
+
+
+def check_C08(c):
+    c.model("Framer", "Framer.cfg", note="framing state machine: every chunking of the reader, EOF / error at every byte, declared lengths around the limit; refuse-before-body, no short delivery, totality (liveness)")
+    c.model("Framer", "Framer.abl_CheckBeforeBody.cfg", must="fail", expect="Inv_C08_RefuseBeforeBody", note="length limit checked only after the body was read")
+    cfg = "WireEnum.quick.cfg"
+    scen, cases = export_table(c, "WireEnum", cfg, "scen_wire.json")
+    c.cov["tlc_runs"][-1]["note"] = "valid encodings that are mutated; Thm_RoundTrip shows Wire.tla's decoder is total on them"
+    path, crashed = run_crashy(c, "TestVerif_Decode", env={"VERIF_SCEN": scen}, timeout=3000)
+    ev = vlib.read_ndjson(path)
+    n = sum(1 for e in ev if e.get("ev") in ("Frame", "Dec"))
+    c.cov["evaluations"] += n
+    c.cov["distinct_nontrivial"] += len({(e.get("entry"), e.get("desc"), e.get("t")) for e in ev if e.get("ev") in ("Frame", "Dec")})
+    c.cov["exhaustive"] = False
+    c.cov["rule"] = ("a case is one call of a decoding entry point (recvPacket with/without allocator, filexfer readPacket, makePacket incl. lazily decoded attributes, every filexfer "
+                     "UnmarshalPacketBody / UnmarshalBinary, attribute / name-list / extension-pair decoders of both codecs) on a mutated input: every truncation point, every length or "
+                     "count field replaced by {0,1,n-1,n+1,2^31-1,2^32-1,256Ki,256Ki+1}, type bytes, random bytes; distinct = distinct (entry point, packet, mutation)")
+    for cr in crashed:
+        h = cr["head"]
+        site = re.findall(r"github.com/pkg/sftp[\w/.]*\.(\S+?)\(", cr["stack"])
+        c.violation("crash,site=%s" % (site[0] if site else "?"), "process died while decoding mutations of a %s packet (case %s): %s" % (h.get("typ"), h.get("case"), cr["panic"]),
+                    {"case": h, "panic": cr["panic"], "stack": cr["stack"]})
+    found = c.validate("TraceDecode", "TraceDecode.cfg", path)
+    for f in found:
+        e = f["line"]
+        msg = f["state"].get("c08", "").strip('"')
+        what = "panic" if e.get("class") == "panic" else ("alloc" if "alloc" in msg else "framing")
+        key = "Inv_C08,entry=%s,%s" % (e.get("entry"), what)
+        c.violation(key, "%s: %s" % (msg, json.dumps({k: e.get(k) for k in ("entry", "desc", "typ", "inlen", "class", "alloc", "consumed", "outlen", "detail", "hi", "lo")})[:400]),
+                    {"module": "TraceDecode", "case": e, "tlc": msg, "packet": f["trace"][0]})
+    c.assumptions += ["allocation = runtime.MemStats.TotalAlloc delta around the call in a single-goroutine process; bound 64 x input + 8 KiB (framing: 2 x declared + 8 KiB)",
+                      "the allocator's 256 KiB page pool is warmed before the call (its pages are not the decoder's allocation)"]
     return c.finish()
